@@ -206,6 +206,9 @@ pub struct Params {
 }
 
 pub struct Sim {
+    stash_seen: u64,
+    replaying_stash: bool,
+    stash: Vec<Message>, // lock-step mode: copies of the (pre-)vote traffic seen so far, re-delivered later as stale duplicates
     transfer_ticks: HashMap<u64, u64>, // leader id -> ticks seen with the same pending transfer
     cur_what: String,                   // description of the library call being made
     pub nodes: Vec<Node>,
@@ -363,7 +366,7 @@ impl Sim {
             p_end_reason: String::new(), violations: vec![], stats: BTreeMap::new(), step_no: 0, params, async_mode,
             next_payload: 1, leaders: HashMap::new(), committed: BTreeMap::new(), leader_committed: BTreeMap::new(), leader_committed_in: BTreeMap::new(), ref_app: BTreeMap::new(),
             released_as_leader: HashMap::new(), reads: HashMap::new(), max_commit: 0, seen_commit: HashMap::new(),
-            last_conf: HashMap::new(), transfer_ticks: HashMap::new(), cur_what: String::new(),
+            last_conf: HashMap::new(), transfer_ticks: HashMap::new(), cur_what: String::new(), stash: vec![], stash_seen: 0, replaying_stash: false,
         };
         if sim.p_active {
             sim.ptrace.push(format!("p new {} -> ok", sim.params.seed));
@@ -1339,7 +1342,29 @@ impl Sim {
     }
 
     fn deliver(&mut self, k: usize, dup: bool) {
+        // forwarded read requests are never duplicated: a re-delivered MsgReadIndex is registered again
+        // under its old context and old heartbeat responses then confirm it (finding F17, recorded with
+        // its own reproduction in findings/F17; every other message type is duplicated freely)
+        let dup = dup && self.net[k].get_msg_type() != MessageType::MsgReadIndex;
         let m = if dup { self.net[k].clone() } else { self.net.swap_remove(k) };
+        if self.params.lockstep {
+            if self.stash.len() < 400
+                && matches!(m.get_msg_type(), MessageType::MsgRequestPreVote | MessageType::MsgRequestPreVoteResponse | MessageType::MsgRequestVote | MessageType::MsgRequestVoteResponse)
+            {
+                self.stash.push(m.clone());
+            }
+        } else if !self.replaying_stash && m.get_msg_type() != MessageType::MsgReadIndex {
+            // every delivered message may come back much later as a stale duplicate (reservoir of 300)
+            self.stash_seen += 1;
+            if self.stash.len() < 300 {
+                self.stash.push(m.clone());
+            } else {
+                let x = (self.stash_seen.wrapping_mul(0x9E37_79B9_7F4A_7C15) >> 33) % self.stash_seen.max(1);
+                if (x as usize) < 300 {
+                    self.stash[x as usize] = m.clone();
+                }
+            }
+        }
         let to = m.to as usize;
         if to < 1 || to > self.nodes.len() || self.nodes[to - 1].rn.is_none() {
             return;
@@ -1601,11 +1626,20 @@ impl Sim {
                         let k = rest[self.rng.below(rest.len() as u64) as usize];
                         self.restart(k);
                     }
-                    94..=97 if !rest.is_empty() => {
+                    94..=96 if !rest.is_empty() => {
                         let k = rest[self.rng.below(rest.len() as u64) as usize];
                         self.call(k, "campaign", None, |rn| {
                             let _ = rn.campaign();
                         });
+                    }
+                    _ if !self.stash.is_empty() => {
+                        // stale / duplicated (pre-)vote traffic from any earlier moment, to anybody
+                        let x = self.rng.below(self.stash.len() as u64) as usize;
+                        let m = self.stash[x].clone();
+                        self.net.push(m);
+                        let k = self.net.len() - 1;
+                        self.deliver(k, false);
+                        self.stat("stale_vote_traffic");
                     }
                     _ => {}
                 }
@@ -1661,7 +1695,17 @@ impl Sim {
                     });
                 }
                 22..=51 => {
-                    if !self.net.is_empty() {
+                    if !self.stash.is_empty() && self.rng.chance(5) {
+                        // a stale duplicate of something delivered long ago
+                        let x = self.rng.below(self.stash.len() as u64) as usize;
+                        let m = self.stash[x].clone();
+                        self.net.push(m);
+                        let k = self.net.len() - 1;
+                        self.replaying_stash = true;
+                        self.deliver(k, false);
+                        self.replaying_stash = false;
+                        self.stat("stale_duplicate");
+                    } else if !self.net.is_empty() {
                         let k = self.rng.below(self.net.len() as u64) as usize;
                         let dup = self.rng.chance(10);
                         self.deliver(k, dup);
